@@ -6,6 +6,8 @@ R3 errno selection (do_reply_error, encode_io_error_kind)
 R4 dirent accounting in add_dirent
 R5 custom headers of read / do_readdir
 R6 notification messages
+R1 (cont.) version-dependent reply arms are taken under exactly the protocol-version facts of the protocol (pre-7.4 negative lookup); no other reply depends on the version
+R1-layout field offsets and sizes of every reply struct equal the kernel's (C13.R1 restricted to reply structs)
 """
 import json
 import re
@@ -508,3 +510,4 @@ META = {
     "note": "Table tables/server_replies.json is the oracle (kernel reply layouts per opcode). Not decided: payload bytes produced by "
             "the filesystem; numeric values at run time.",
 }
+META["text"] += " " + "Also: reply structs have the kernel's field offsets (C13 restricted to replies); version-dependent reply arms depend on the version exactly as the protocol says."
